@@ -1246,3 +1246,36 @@ Proof.
            ++ exfalso. destruct (op_eq_end o) as [->|Ne]; [unfold mstep in EM; rewrite Es1 in EM; inversion EM; subst; congruence|].
               rewrite (mstep_sess _ _ _ _ EM Ns Ne) in Hfd. cbn in Hfd. congruence.
 Qed.
+
+Definition gop_full (idx : list Z) (x : gop) : Prop := match x with GOp o => full_op o | GFile n => In n idx end.
+
+Fixpoint grun_ok (g : gstate) (A : Z -> state) (xs : list gop) : Prop :=
+  match xs with
+  | [] => True
+  | GFile n :: t => grun_ok (gfile g n) A t
+  | GOp o :: t => let '(g', mr) := gstep g o in let '(a', sr) := step (A (g_cur g)) (fill_full o mr) in
+                  sr = RUnspec \/ exhausted sr mr \/ enum_capped (A (g_cur g)) o \/
+                  (accepts_full sr mr /\ grun_ok g' (upd A (g_cur g) a') t)
+  end.
+
+Lemma gfile_GSim : forall idx g A n, GSim idx g A -> In n idx -> GSim idx (gfile g n) A.
+Proof. intros idx g A n [H1 H2 H3 H4 H5] Hn. constructor; simpl; assumption. Qed.
+
+Theorem grun_sim : forall idx xs g A, GSim idx g A -> Forall (gop_full idx) xs -> grun_ok g A xs.
+Proof.
+  induction xs as [|x t IH]; simpl; intros g A HG Hxs; [exact I|]. inversion Hxs; subst. destruct x as [o|n]; simpl in H1.
+  - destruct (gstep g o) as [g' mr] eqn:EM. destruct (step (A (g_cur g)) (fill_full o mr)) as [a' sr] eqn:ES.
+    destruct (gstep_sim _ _ _ _ _ _ _ _ HG H1 EM ES) as [X|[X|[X|[X Y]]]]; auto.
+    right. right. right. split; [assumption | apply IH; assumption].
+  - apply IH; [apply gfile_GSim; assumption | assumption].
+Qed.
+
+Lemma GSim_init : forall idx names, In 0 idx -> NamesOK idx names -> GSim idx (ginit names) (fun _ => init).
+Proof.
+  intros idx names H0 Hn. constructor; simpl.
+  - intros f. exact Sim_init.
+  - assumption.
+  - assumption.
+  - left. reflexivity.
+  - intros kind blocks _ Hb. discriminate.
+Qed.
